@@ -365,3 +365,14 @@ CLAIMED.update({
          "note": STD_NOTE,
          "technique": "static analysis: evaluation of extracted dispatch code over its finite decision domain (K6/K3), structural ordering (K3), folding-status dataflow symmetry on comparisons (K7)"},
 })
+CLAIMED.update({
+ "C31": {"level": "other",
+         "text": "get_ws_frame evaluated from its extracted CFG with C integer semantics (unsigned wrap-around, promotions) on ~2000 combinations of FIN x opcode class x MASK x length "
+                 "form (7/16/64-bit, around the 10 MiB limit, 2^63) x every number of bytes present from 0 to the complete frame: INCOMPLETE_DATA exactly when fewer bytes are present "
+                 "than header + mask + payload (a split at any position, including inside the masking key, is never taken for complete), only present header bytes are read, "
+                 "ERROR_FRAME above the limit and for reserved opcodes, INCOMPLETE_FRAME for non-final data frames, otherwise the opcode with *out_len = payload length; the read "
+                 "callback leaves the input alone on INCOMPLETE_DATA and reaches the disconnect path on ERROR_FRAME. Declined: message reassembly across fragments and interleaved "
+                 "control frames.",
+         "note": STD_NOTE + ORDER_NOTE + " Typed evaluation (engine/prog.py tevalx) models LP64 integer conversions.",
+         "technique": "static analysis: typed evaluation of the extracted frame-header decoder over header/length/presence domains against the RFC 6455 framing rule (K6), bounds via presence of read bytes (K4), caller ordering (K3)"},
+})
